@@ -5,20 +5,55 @@ NOTES = ("All checks go through ./check <ID> --tier quick|thorough; exit 0 held 
 NOT_APPLICABLE = {}
 _T = "trusts z3, CPython and the sx proxies (differentially self-tested against CPython at the start of every run); "
 CLAIMS = {
+    "C01": {
+        "text": "Bounded: K01b proves for every token text of <=2 (3) characters over U+0000..U+00FF and all nine case options that the real token_case/case_utils fix is a pure case map (same length, same lower-cased text). L01 runs the whole product (tokenizer, classifier, all shipped rules, rule_list.fix) on corpus fixtures whose letter case in a window is symbolic and, in layout-variation explorations, whose whitespace gaps/line ends in a window take engine-forked alternatives; after every single rule application it checks that code tokens are the same objects in the same order with the same text (case rules: modulo case, literals exact; structure rules: only documented kinds of insertions/removals).",
+        "design_ref": "DESIGN.md section 4 C01, section 3",
+        "note": _T + "token structure is that of the 957 corpus fixtures and their layout neighbourhoods; the phase-1 allow-list is calibrated against the current tree",
+    },
+    "C02": {
+        "text": "Bounded: L02 checks on the same whole-pipeline explorations that after every rule application the comment / pragma / preprocessor tokens are unchanged in number, order, type and text (modulo the documented blank/tab normalisation for comment and whitespace rules; documented comment-removing rule families exempt) and that no '--' comment newly loses its line break.",
+        "design_ref": "DESIGN.md section 4 C02",
+        "note": _T + "comment positions are those of the corpus plus engine-forked trailing / own-line comments in a window",
+    },
     "C03": {
-        "text": "Bounded: K03 runs the real rule_list.fix / rule.fix on 1-2 (3) stub rules whose phase, sub-phase, disable, fixable, severity type and violation count are symbolic, with symbolic --fix_phase and skip_phase; z3 proves per path that _fix_violation runs exactly for enabled, fixable, error-severity rules of phases 1..N and that nothing else reaches the file. Rule bodies (what a fix does to tokens) are outside this check.",
-        "design_ref": "DESIGN.md section 4, C03 (K03)",
-        "note": _T + "rules are StubRule subclasses of the real vsg.rule.Rule; the effect classification of real rule bodies (KB03/L03) is not built yet",
+        "text": "Bounded: K03 proves on 1-3 stub rules with fully symbolic metadata that rule_list.fix runs _fix_violation exactly for enabled, fixable, error-severity rules of phases 1..N not skipped; K12a proves configured disable/fixable/severity reach the rule from every configuration level; K01b proves case fixes are case-only; L03 checks the effect class of every real rule application on corpus explorations (layout-only, case-only, nothing).",
+        "design_ref": "DESIGN.md section 4 C03",
+        "note": _T + "effect classes follow the rule's group (a structure rule living in phase 5 is structural); corpus bound as C01",
     },
     "C04": {
-        "text": "Bounded: K04a proves ''.join(tokens.create(s)) == s for every string of <=2 (quick) / <=3 (thorough) characters over U+0000..U+00FF through the nine real tokenizer passes; K16 proves on a model file system that apply_rules mutates nothing without --fix and never touches the target when no rule fixed anything.",
-        "design_ref": "DESIGN.md section 4, C04 (K04a, K04e=K16)",
-        "note": _T + "lines contain no CR/LF; file system is a model; parse/emit of whole files (L04) not built yet",
+        "text": "Bounded: K04a proves ''.join(tokens.create(s)) == s for every string of <=2 (3) characters over U+0000..U+00FF; K04c proves the per-line pipeline (tokenizer + blank/whitespace/comment/preprocessor/pragma classification, symbolic regex) gives back every line of <=2 (3) characters inside and outside a delimited comment; K16 proves on a model file system that nothing is written without --fix and the target is untouched when no rule fixed anything; L04 proves parse+emit returns the input lines for every case variant of whole corpus files.",
+        "design_ref": "DESIGN.md section 4 C04",
+        "note": _T + "lines contain no CR/LF; file system is a model",
+    },
+    "C05": {
+        "text": "Bounded: L05 makes every letter of a whole corpus file case-symbolic: the complete tokenizer+classifier runs on a single path and the role of every token equals the concrete baseline (all 2^letters case variants at once). L05b forks over layout alternatives (line break, comment + line break, extra blanks/tab; trailing and own-line comments) at up to 5 whitespace gaps of a window and proves acceptance and identical code-token roles.",
+        "design_ref": "DESIGN.md section 4 C05",
+        "note": _T + "re-layout beyond 5 gaps at a time and removal of existing line breaks are outside",
     },
     "C06": {
-        "text": "Bounded: K06 runs the real rule_list.check_rules twice (clear_violations in between) on 2-3 stub rules with symbolic metadata and symbolic violation lines; z3 proves repeatability, that the token list and file are untouched, and that a rule's report depends only on its own inputs (disabling removes exactly its violations).",
-        "design_ref": "DESIGN.md section 4, C06 (K06)",
-        "note": _T + "state shared between real rule bodies (L06) not covered",
+        "text": "Bounded: K06 proves repeatability and independence of check_rules on 2-3 stub rules with symbolic metadata; L06 proves on corpus explorations (incl. option-flip configurations) that analysis leaves token state and the token index untouched, that a second check reports the same, and that each reporting rule alone on a fresh parse reports what it reported inside the full run.",
+        "design_ref": "DESIGN.md section 4 C06",
+        "note": _T + "at most 6 reporting rules per file are re-run alone",
+    },
+    "C07": {
+        "text": "Bounded: L07 compares, for every application of a whitespace / indent / alignment / case rule in a full fix run on corpus explorations (case-symbolic window or layout variation), the set of changed lines (symbolic line comparison decided by z3) with the lines the rule reported; line count unchanged; reported lines within the file.",
+        "design_ref": "DESIGN.md section 4 C07",
+        "note": _T + "whitespace widths are those of the corpus and its layout variants (no symbolic widths)",
+    },
+    "C08": {
+        "text": "Bounded: L08 re-parses the fixed text and compares token count, roles, values and indent levels with the in-memory model, and the violations of a fresh check with those of the fix run's model; K14b proves through apply_rules + main on stub rules that the report after --fix lists each violation exactly once.",
+        "design_ref": "DESIGN.md section 4 C08",
+        "note": _T + "corpus bound as C01",
+    },
+    "C09": {
+        "text": "Bounded: L09 proves fix(fix(x)) == fix(x) (text) on corpus explorations under seven configurations.",
+        "design_ref": "DESIGN.md section 4 C09",
+        "note": _T + "corpus bound as C01; two iterations",
+    },
+    "C10": {
+        "text": "Bounded: L10 applies every rule that changed something a second time right away (same rule object, live model) and proves the model is unchanged.",
+        "design_ref": "DESIGN.md section 4 C10",
+        "note": _T + "corpus bound as C01",
     },
     "C11": {
         "text": "Bounded: K11a drives the real set_code_tags/code_tags/has_code_tag/add_violation state machine over every sequence of <=4 (5) lines from {code, vsg_off, vsg_on, vsg_disable_next_line, comment, blank} with symbolic rule ids and compares, by z3, with a reference interpreter of docs/code_tags.rst; K11b does the same for the tag text (every tail of <=3 (4) characters over a 7-symbol alphabet).",
@@ -49,5 +84,25 @@ CLAIMS = {
         "text": "Bounded: K20a proves for one rule with 0..2 (3) violations on symbolic lines and every shape of the selection document that rule.fix repairs exactly the listed lines (all for 'all'), in file order; K20b proves all-rules-all == plain fix, empty selection fixes nothing, and a one-rule selection leaves the other rule untouched.",
         "design_ref": "DESIGN.md section 4, C20 (K20a, K20b)",
         "note": _T + "stub rules; the line-locality of real rule fixes (L20) not covered",
+    },
+    "C15": {
+        "text": "Bounded: K14b runs the real __main__.main aggregation (jobs 1 and 2 through Pool.imap's contract) over 1-3 files with symbolic per-file outcomes and proves order of output and JSON entries; L15 is a purity step: processing a file (parse, fix, check, report) leaves every module-level and class-level mutable container of vsg.* unchanged, so the result for a file cannot depend on what a worker processed before.",
+        "design_ref": "DESIGN.md section 4 C15",
+        "note": _T + "OS scheduling, pickling and real process pools are outside; imap = lazy, in submission order",
+    },
+    "C17": {
+        "text": "Bounded: K17 sets, for each non-deprecated rule (80 per quick run, all in thorough), every configurable attribute to a symbolic value of its type (yes/no options also as YAML booleans), emits the configuration, configures a fresh rule from it and proves the second emission identical and the effective values equal; K17b does the whole rule list under styles none/jcl/indent_only.",
+        "design_ref": "DESIGN.md section 4 C17",
+        "note": _T + "JSON/YAML replaced by a structural copy with JSON's coercions; behaviour on VHDL input under the emitted configuration (L17) not covered",
+    },
+    "C18": {
+        "text": "Bounded: K18a proves every token-index lookup equals a linear scan for all token lists of <=5 (6) tokens over 7 kinds; K18b proves extract.tokens.New / extract_tokens record start, end and line of every (sub-)region; L18 proves on corpus explorations that the index equals a recomputed one whenever a rule obtains its tokens of interest after a change and that every region of interest is the slice it claims to be.",
+        "design_ref": "DESIGN.md section 4 C18",
+        "note": _T + "get_token_pair_indexes only through the real rules",
+    },
+    "C19": {
+        "text": "Bounded: K19b pushes every sequence of <=3 (4) words of a structural vocabulary through the real vhdlFile constructor: accepted or ClassifyError, nothing else; L19 runs parse, full fix, check and report over pinned and random corpus explorations under seven configurations; every other harness charges escaping exceptions to C19 as well.",
+        "design_ref": "DESIGN.md section 4 C19",
+        "note": _T + "termination is guarded by per-path event/time budgets (unwinding assertion), not proved",
     },
 }
